@@ -487,7 +487,7 @@ PROPS = {
         },
         "analyze": analyze_generic,
         "oracles": ["memEqStore", "failedIsNoop"],
-        "probes": ["noLostUpdate"],
+        "probes": ["noLostUpdate", "readIsSnapshot"],
         "rule": MCREW_RULE,
     },
     "C17": {
